@@ -4,7 +4,7 @@
 From Coq Require Import List Bool ZArith Arith Lia.
 Import ListNotations.
 Require Import MV.Model.PySem MV.Gen.SrcPlan.
-Require Import MV.Model.Orch MV.Model.PlannerA MV.Model.PyObj MV.Proofs.SrcTiePlanP.
+Require Import MV.Model.Orch MV.Model.PlannerA MV.Model.PyObj MV.Proofs.SrcTieLemP.
 Require Import MV.Model.PlannerL.
 Open Scope nat_scope.
 
